@@ -38,7 +38,7 @@ ASSUMPTIONS = [
     "real-OS scheduling of the pool's helper threads is not explored (callback runs once, after all results)",
 ]
 TIERS = {
-    "quick": {"worlds": 320, "wall": 520, "shrink_budget": 60,
+    "quick": {"worlds": 1000, "wall": 520, "shrink_budget": 60,
               "required_probes": ["c08.run_completed", "c08.repeat_compared", "pool.worker_ran_2plus_tasks",
                                   "c08.predraw_batch", "c08.multilevel_run"]},
     "thorough": {"worlds": 16000, "wall": 3300, "shrink_budget": 150,
